@@ -135,7 +135,11 @@ def compare(expected_raw, observed, g, skip=(0, 0)):
         e = exp[i] if i < len(exp) else None
         o = observed[j] if j < len(observed) else None
         if g == "delta" and nerr >= MAX_DELTA_ERRORS:
-            return None            # beyond the error budget of the second generation nothing is compared
+            # beyond the error budget of the second generation (MAX_NUM_LEXING_ERRORS) further ERRORS are not demanded;
+            # the TOKENS behind them still are (dimension audit: texts with more than 100 illegal lexemes)
+            if e is not None and e.code != 0:
+                i += 1
+                continue
         if e is not None and e.opt:
             if o is not None and match_item(e, o, g) is None:
                 i += 1
@@ -399,7 +403,8 @@ def agreement(obs, text):
             positions = set(rep_a.values())
             rep_d = {i: o[1] for i, o in enumerate(dt) if o[0] == "Error" and o[5] == 110 and o[2] - o[1] == 1 and o[1] in positions}
             both = positions & set(rep_d.values())
-            if positions - both:
+            capped = sum(1 for o in dt if o[0].startswith("Error")) >= MAX_DELTA_ERRORS
+            if positions - both and not capped:      # (beyond its 100 errors the second generation reports none)
                 out.append(("agree lone-cr: alpha reports E110 for a carriage return without line feed, delta skips it", {}))
             at = [o for i, o in enumerate(at) if i not in rep_a]
             dt = [o for i, o in enumerate(dt) if i not in rep_d]
@@ -418,16 +423,24 @@ def agreement(obs, text):
 def _agree_lists(at, dt, text):
     na = norm_for_agreement(at, "alpha", text)
     nd = norm_for_agreement(dt, "delta", text)
-    nerr = 0
-    for i in range(max(len(na), len(nd))):
+    # the second generation records at most MAX_DELTA_ERRORS lexical errors (raw Error tokens, one per byte of a
+    # non-ASCII character); once it has used them up, errors that only alpha reports are not a disagreement,
+    # the tokens still must agree
+    capped = sum(1 for o in dt if o[0].startswith("Error")) >= MAX_DELTA_ERRORS
+    left = sum(1 for x, _ in nd if x[0] == "E")          # delta errors not yet consumed
+    i = j = 0
+    while i < len(na) or j < len(nd):
         x, xo = na[i] if i < len(na) else (None, None)
-        y, yo = nd[i] if i < len(nd) else (None, None)
-        if nerr >= MAX_DELTA_ERRORS:
-            return None
+        y, yo = nd[j] if j < len(nd) else (None, None)
+        if capped and left == 0 and x is not None and x[0] == "E" and (y is None or y[0] != "E"):
+            i += 1
+            continue
         if x != y:
             return {"field": "agree", "at": i, "alpha": _ashort(x), "delta": _ashort(y), "alpha_item": xo, "delta_item": yo}
-        if x and x[0] == "E":
-            nerr += 1
+        if y[0] == "E":
+            left -= 1
+        i += 1
+        j += 1
     return None
 
 
